@@ -94,6 +94,10 @@ pub fn world_for(mode: Mode, rng: &mut Prng) -> (WorldCfg, AmtClass) {
     if rng.chance(1, 2) {
         natives.push("uosmo".into());
     }
+    if rng.chance(1, 4) {
+        // a native denomination spelled exactly like the first token contract's address
+        natives.push("contract0".into());
+    }
     let mut users = rng.range(3, 5) as usize;
     let mut n_cw20 = rng.range(1, 3) as usize;
     let mut nfts_per_user = rng.range(2, 3) as usize;
@@ -649,6 +653,15 @@ impl Gen {
                         Fung::Cw20(t) => opts.push(Piece::Cw20(t.clone(), need)),
                     }
                 }
+                // sloppy buyer: the asset of the OTHER kind that carries the same name (a native denomination
+                // spelled like a token contract's address) — must not be taken for the asked one
+                if self.rng.chance(1, 3) {
+                    match k {
+                        Fung::Native(d) if o.bal(who, &Fung::Cw20(d.clone())) >= need => opts.push(Piece::Cw20(d.clone(), need)),
+                        Fung::Cw20(t) if o.bal(who, &Fung::Native(t.clone())) >= need => opts.push(Piece::Native(vec![fund(t, need)])),
+                        _ => {}
+                    }
+                }
             }
         }
         for n in &ask.nfts {
@@ -776,7 +789,14 @@ impl Gen {
                 let sub = Self::fits(&b.funds, &l.ask) && b.funds.count() + 1 >= l.ask.count();
                 let sup = Self::fits(&l.ask, &b.funds) && l.ask.count() + 1 >= b.funds.count();
                 let same_colls = b.funds.fung == l.ask.fung && b.funds.collections() == l.ask.collections() && !b.funds.nfts.is_empty();
-                if same_keys || sub || sup || same_colls {
+                // same names and amounts when the kind of asset (native / CW20) is ignored
+                let labels = |a: &Assets| -> Vec<(String, u128)> {
+                    let mut v: Vec<(String, u128)> = a.fung.iter().map(|(k, x)| (match k { Fung::Native(d) => d.clone(), Fung::Cw20(t) => t.clone() }, *x)).collect();
+                    v.sort();
+                    v
+                };
+                let same_names = labels(&b.funds) == labels(&l.ask) && b.funds.nfts == l.ask.nfts;
+                if same_keys || sub || sup || same_colls || same_names {
                     near.push((b.key_owner.clone(), l.id, b.key_id));
                 }
             }
